@@ -603,7 +603,7 @@ Definition POT tr vr ac io ver := show_MP (parse_observable VAR REG CLN SX RF (f
 def eval_model(tag, cases, desc, unguarded, shard=400, timeout=900, refuse=False, registry="live"):
     """evaluate the model on the cases (None for cases without a model term); per-shard headers carry the base objects"""
     var = ("Definition VAR : variant := unguarded_at (sites_named %s).\nDefinition RF : bool := %s.\nDefinition REG : registry := %s.\nDefinition SX : bool := %s.\n"
-           "Definition CLN : cleaner := clean_struct 6 VAR REG SX %s.\n") % (
+           "Definition CLN : cleaner := clean_struct 6 VAR REG SX RF %s.\n") % (
         common.coq_list([common.coq_str(t) for t in unguarded]), common.coq_bool(refuse), registry,
         common.coq_bool(MODE["strict_unregistered_extension"]),
         "all_classes_custom" if registry == "live_custom" else "all_classes")
